@@ -13,3 +13,5 @@ for c in "$@"; do
   echo "$out" | tail -1 | cut -c1-200
 done
 git -C /repo checkout -- .
+# leave no driver built from the patched tree behind
+python3 -c "import sys; sys.path.insert(0, '/verif'); from vlib import common; common.build(('rel', 'dev'))"
